@@ -35,6 +35,17 @@ func (d *FieldDescriptor) cast() string {
 	}
 }
 
+// castable returns true if the field's type can be cast to an index key type
+func (d *FieldDescriptor) castable() bool {
+	switch d.Type {
+	case "int", "int8", "int16", "int32", "int64", "time.Time",
+		"uint", "uint8", "uint16", "uint32", "uint64",
+		"float32", "float64", "string":
+		return true
+	}
+	return false
+}
+
 func (d *FieldDescriptor) Transform(o interface{}) {
 	switch i := o.(type) {
 	case Object:
